@@ -16,8 +16,9 @@ import (
 type Case map[string]interface{}
 
 type family struct {
-	gen func(rng *rand.Rand, idx int, tier string) Case // build a case (without "go")
-	run func(c Case) interface{}                         // run the real code, canonical outcome
+	gen  func(rng *rand.Rand, idx int, tier string) Case // build a case (without "go")
+	run  func(c Case) interface{}                        // run the real code, canonical outcome
+	prep func(c Case)                                    // add oracle tables etc. to the case
 }
 
 var families = map[string]*family{}
@@ -48,6 +49,9 @@ func main() {
 		dec.UseNumber()
 		if err := dec.Decode(&c2); err != nil {
 			panic(err)
+		}
+		if f.prep != nil {
+			f.prep(c2)
 		}
 		c2["go"] = safeRun(f, c2)
 		b, err := json.Marshal(c2)
